@@ -18,12 +18,13 @@ ObsOK(o) ==
   /\ \A s \in Streams : o.rep[s] = st'[s].rep
   /\ \A i \in 1..Len(ConnOrder) : o.via[i] = via'[ConnOrder[i]].st
   /\ ~o.exc
-PropsOK == OneDecision' /\ NothingForExit' /\ ViaExact' /\ Answered'
+PropsOK == OneDecision' /\ NothingForExit' /\ ViaExact' /\ Answered' /\ ViaNeverRefused'
 Step(e) ==
   CASE e.a = "NewStream"   -> NewStream(e.s, e.kind, e.p, e.ans, e.mode)
     [] e.a = "Answer"      -> Answer(e.s)
     [] e.a = "SetAttacher" -> SetAttacher(e.who)
-    [] e.a = "ViaConnect"  -> ViaConnect(e.k, e.c)
+    [] e.a = "ViaConnect"  -> ViaConnect(e.k, e.c, e.late)
+    [] e.a = "ConfAck"     -> ConfAck
     [] e.a = "ViaAddr"     -> ViaAddr(e.k, e.p)
     [] e.a = "CircStep"    -> CircStep(e.c, e.to)
     [] OTHER -> FALSE
